@@ -77,7 +77,8 @@ class PayloadGen:
     numerically. Parent types are tracked while walking so that field types come from the
     schema, not from the payload."""
 
-    def __init__(self, ref, rng, max_depth=7):
+    def __init__(self, ref, rng, max_depth=7, drop_deprecated=False):
+        self.drop_deprecated = drop_deprecated   # deprecation strategy `deny`: the field is not part of the Rust type
         self.ref = ref
         self.s = ref.s
         self.rng = rng
@@ -119,7 +120,7 @@ class PayloadGen:
                 f = self.s.field(static_type, it[2])
             pv, ev = self.gen_t(f["type"], it[4], depth, path + (key,))
             p[key] = pv
-            if ev is not None:
+            if ev is not None and not (self.drop_deprecated and f.get("deprecated") is not None):
                 e[key] = ev
         return p, e
 
